@@ -10,6 +10,7 @@ from sigma.backends.test import TextQueryTestBackend
 from sigma.collection import SigmaCollection
 from sigma.conditions import _parse_condition_string
 from sigma.exceptions import SigmaError
+from sigma.filters import SigmaFilter
 from sigma.modifiers import SigmaModifier
 from sigma.processing.pipeline import ProcessingPipeline
 from sigma.rule import SigmaRule
@@ -87,10 +88,27 @@ def rule_doc(r, n):
             else: raise ValueError(kind)
         det[name] = d
     if r["conds"]:
-        det["condition"] = r["conds"] if len(r["conds"]) > 1 else r["conds"][0]
+        # a new list: the rule object keeps the list it is given and filters rewrite it in place
+        det["condition"] = list(r["conds"]) if len(r["conds"]) > 1 else r["conds"][0]
     doc = {"title": f"rule {n}", "logsource": ({"product": PRODUCT[r["product"]]} if r["product"] else {"category": "c"}),
            "detection": det}
     return doc
+
+def _det(items):
+    d = {}
+    for field, kind, text in items:
+        if kind == "num": d[field] = int(text)
+        elif kind == "str": d[field] = text
+        elif kind == "star": d[field] = text + "*"
+        else: raise ValueError(kind)
+    return d
+
+def filter_doc(f, n):
+    flt = {"rules": "any"}
+    for name, items in f["dets"]:
+        flt[name] = _det(items)
+    flt["condition"] = f["cond"]
+    return {"title": f"filter {n}", "logsource": {"product": PRODUCT[f["product"]]}, "filter": flt}
 
 def err(e):
     return ["err", type(e).__name__, isinstance(e, SigmaError)]
@@ -142,8 +160,8 @@ class World:
             _, b, fmt = op
             self.backends[b].init_processing_pipeline(FMT[fmt])
             out["r"] = ["ok"]; out["snap"] = self.snap(b)
-        elif kind in ("rule", "coll"):
-            b, fmt = op[1], op[3]
+        elif kind in ("rule", "coll", "collf"):
+            b, fmt = op[1], op[-1]
             bk = self.backends[b]
             nerr = len(bk.errors)
             try:
@@ -152,6 +170,9 @@ class World:
                     q = bk.convert_rule(rule, FMT[fmt])
                 else:
                     rules = [self.load(r) for r in op[2]]
+                    if kind == "collf":   # one filter document in the same collection, applied to every matching rule
+                        self.n += 1
+                        rules.append(SigmaFilter.from_dict(filter_doc(op[3], self.n)))
                     q = bk.convert(SigmaCollection(rules), FMT[fmt])
                 out["r"] = ["q", [x if isinstance(x, str) else repr(x) for x in q]]
             except Exception as e:  # noqa
@@ -169,11 +190,17 @@ def run_history(case):
     # the probe (= last operation) in a fresh setup: new class objects, new pipeline objects from the
     # same YAML, cleared caches, one new backend with the configuration of the probed backend
     probe = case["ops"][-1]
-    fresh = None
-    if probe[0] in ("rule", "coll"):
+    fresh, each = None, []
+    if probe[0] in ("rule", "coll", "collf"):
         news = [op for op in case["ops"] if op[0] == "new"]
         _, cls, user, collect = news[probe[1]]
         f = World(case)
         f.step(["new", cls, user, collect])
         fresh = f.step([probe[0], 0] + probe[2:])
-    return {"outs": outs, "fresh": fresh}
+        if probe[0] != "rule":
+            # every rule of the collection on its own (with the filter), each in its own fresh setup
+            for r in probe[2]:
+                f = World(case)
+                f.step(["new", cls, user, collect])
+                each.append(f.step([probe[0], 0, [r]] + probe[3:]))
+    return {"outs": outs, "fresh": fresh, "each": each}
